@@ -371,3 +371,97 @@ Unit(
     ensures=[("registry-unloaded", "generators is None")],
     canary="generators is not None",
 )
+
+
+# ---------------------------------------------------------------------------------------------
+# native replay: the registry driven through the real public API as a case-insensitive map
+from txvc.props import replay_for  # noqa: E402
+
+
+def _registry_battery():
+    from textx import (GeneratorDesc, LanguageDesc, clear_generator_registrations, clear_language_registrations,
+                       generator_description, language_description, languages_for_file, metamodel_for_language,
+                       register_generator, register_language)
+    from textx.exceptions import TextXRegistrationError
+
+    bad = []
+
+    def refused(fn, *a, **k):
+        try:
+            fn(*a, **k)
+            return False
+        except TextXRegistrationError:
+            return True
+
+    made = []
+
+    def factory(**kwargs):
+        from textx import metamodel_from_str
+
+        made.append(kwargs)
+        return metamodel_from_str("Model: 'x';")
+
+    clear_language_registrations()
+    clear_generator_registrations()
+    try:
+        first = LanguageDesc("ZzLang", pattern="*.zz1", description="first", metamodel=factory)
+        second = LanguageDesc("zzLANG", pattern="*.zz2", description="second", metamodel=factory)
+        nopat = LanguageDesc("ZzNoPattern", description="no pattern", metamodel=factory)
+        register_language(first)
+        for nm in ("zzlang", "ZZLANG", "ZzLang"):
+            if language_description(nm) is not first:
+                bad.append(f"language_description({nm!r}) is not the registered description")
+        if not refused(register_language, second):
+            bad.append("a language whose name differs only in case was registered a second time")
+        if language_description("zzlang") is not first:
+            bad.append("a refused registration changed the registered description")
+        if [d for d in languages_for_file("m.zz2") if d.name.lower() == "zzlang"]:
+            bad.append("a refused registration is visible through languages_for_file")
+        register_language(nopat)
+        try:
+            hits = [d for d in languages_for_file("m.zz1") if d.name.lower().startswith("zz")]
+            if hits != [first]:
+                bad.append(f"languages_for_file('m.zz1') gave {[d.name for d in hits]}, expected ['ZzLang']")
+        except Exception as e:  # noqa: BLE001
+            bad.append(f"languages_for_file raised {type(e).__name__} with a pattern-less language registered")
+        m1 = metamodel_for_language("ZZlang")
+        m2 = metamodel_for_language("zzlang")
+        if m1 is not m2 or len(made) != 1:
+            bad.append("metamodel_for_language did not return the cached instance on the second call")
+        clear_language_registrations()
+        if not refused(language_description, "zzlang"):
+            bad.append("a language registered by API survived clear_language_registrations")
+
+        g1 = GeneratorDesc(language="ZzLang", target="Out", description="g1", generator=lambda *a, **k: None)
+        g2 = GeneratorDesc(language="zzlang", target="OUT", description="g2", generator=lambda *a, **k: None)
+        gany = GeneratorDesc(language="any", target="ZzAny", description="gany", generator=lambda *a, **k: None)
+        register_generator(g1)
+        if generator_description("zzLANG", "oUt") is not g1:
+            bad.append("generator_description is not case-insensitive in language and target")
+        if not refused(register_generator, g2):
+            bad.append("a generator whose (language, target) differs only in case was registered a second time")
+        if generator_description("zzlang", "out") is not g1:
+            bad.append("a refused generator registration changed the registered description")
+        register_generator(gany)
+        if generator_description("zzlang", "zzany", any_permitted=True) is not gany:
+            bad.append("the 'any' fallback did not return the generator registered for any language")
+        if not refused(generator_description, "zzlang", "zzany"):
+            bad.append("the 'any' fallback was used although not permitted")
+    finally:
+        clear_language_registrations()
+        clear_generator_registrations()
+    return bad
+
+
+def _replay_registry(model, rec):
+    bad = _registry_battery()
+    if bad:
+        return True, "registry battery on the real code:\n  " + "\n  ".join(bad)
+    return False, "registry battery: the real registry behaves as a case-insensitive map on the battery"
+
+
+for _u in ("language_descriptions", "register_language", "language_description", "clear_language_registrations",
+           "languages_for_file", "language_for_file", "languages_for_file.summary", "metamodel_for_language",
+           "generator_descriptions", "register_generator", "generator_description",
+           "clear_generator_registrations"):
+    replay_for("registration." + _u)(_replay_registry)
